@@ -747,9 +747,10 @@ where
                     //now we can empty the buffer (on next iteration of the main loop)
                     self.emptybuffer = true;
                     // but first we prune unneeded items:
-                    if self.end < 0 && self.begin < 0 {
-                        //discard items from the begin which we do not want
-                        for _ in 0..self.begin.abs() {
+                    if self.begin < 0 && self.end != 0 {
+                        //the buffer starts at the very first item (cursor is the total number of items by now),
+                        //discard the items before the begin, which is relative to the end
+                        for _ in 0..(self.cursor + self.begin) {
                             self.buffer.pop_front();
                         }
                     }
